@@ -1,4 +1,108 @@
+/-
+Line-protocol handler, level 2: one interpreter line on a fully specified machine state.
+request : x <14 regs> | <seed> | <pokes> | <labels> | <fns> | <stack> | <cur> | <line>
+answer  : <STATE> | <14 regs> | <memory diff> | <call stack>   or ERR or PANIC
+-/
 import Driver.L1
+import Emu8086.Model.ILex
+import Emu8086.Spec.Exec
+
 namespace Driver
-def handleL2 (_req _ans : String) : Verdict := bad
+open Emu8086
+
+/-- the harness' memory pattern (u32 wrapping arithmetic) -/
+def pattern (seed : Nat) (a : Nat) : BitVec 8 :=
+  let x := (a * 0x9E3779B1 + seed * 0x85EBCA6B) % 4294967296
+  BitVec.ofNat 8 ((x >>> 13) % 256)
+
+def splitBar (s : String) : List String := s.splitOn " | "
+
+def parsePairs (s : String) (sep : String) : List (List String) :=
+  if s.trimAscii.toString == "-" then [] else (s.trimAscii.toString.splitOn sep).map (·.splitOn ":")
+
+structure L2Req where
+  m : Machine
+  ctx : Ctx
+  cur : Nat
+  line : String
+  initOv : Std.HashMap Nat (BitVec 8)
+
+def parseL2 (req : String) : Option L2Req :=
+  match splitBar req with
+  | regs :: seed :: pokes :: labels :: fns :: stack :: cur :: lineParts =>
+    let line := " | ".intercalate lineParts
+    match (words regs).drop 1 |>.map nat! with
+    | [fl, ax, bx, cx, dx, sp, bp, si, di, ip, cs, ds, ss, es] =>
+      let sd := nat! seed.trimAscii.toString
+      let ov : Std.HashMap Nat (BitVec 8) :=
+        (parsePairs pokes ",").foldl (fun acc p => match p with
+          | [a, v] => acc.insert (nat! a % MB) (BitVec.ofNat 8 (nat! v))
+          | _ => acc) {}
+      let b := fun (n : Nat) => BitVec.ofNat 16 n
+      let m : Machine := { flag := b fl, ax := b ax, bx := b bx, cx := b cx, dx := b dx, sp := b sp, bp := b bp,
+                           si := b si, di := b di, ip := b ip, cs := b cs, ds := b ds, ss := b ss, es := b es,
+                           mem := { base := pattern sd, ov := ov } }
+      let lm : List (String × Label) := (parsePairs labels ";").filterMap fun p => match p with
+        | [n, t, v] => some (n, ⟨if t == "D" then .DATA else .CODE, nat! v⟩)
+        | _ => none
+      let fm : List (String × Nat) := (parsePairs fns ";").filterMap fun p => match p with
+        | [n, v] => some (n, nat! v)
+        | _ => none
+      let st : List Nat := if stack.trimAscii.toString == "-" then [] else (stack.trimAscii.toString.splitOn ",").map nat!
+      some { m := m, ctx := { fnMap := fm, labelMap := lm, callStack := st }, cur := nat! cur.trimAscii.toString,
+             line := line, initOv := ov }
+    | _ => none
+  | _ => none
+
+def fmtState : State → String
+  | .HALT => "HALT" | .PRINT => "PRINT" | .JMP i => s!"JMP {i}" | .NEXT => "NEXT"
+  | .INT n => s!"INT {n.toNat}" | .REPEAT => "REPEAT"
+
+def fmtRegs (m : Machine) : String :=
+  " ".intercalate ([m.flag, m.ax, m.bx, m.cx, m.dx, m.sp, m.bp, m.si, m.di, m.ip, m.cs, m.ds, m.ss, m.es].map
+    fun (x : BitVec 16) => toString x.toNat)
+
+def memDiff (init : Std.HashMap Nat (BitVec 8)) (m : Machine) : String :=
+  let l := m.mem.ov.toList.filter fun (a, v) => v != (init[a]?).getD (m.mem.base a)
+  let l := l.toArray.qsort (fun x y => x.1 < y.1) |>.toList
+  if l.isEmpty then "-" else ",".intercalate (l.map fun (a, v) => s!"{a}:{v.toNat}")
+
+def fmtStack (l : List Nat) : String := if l.isEmpty then "-" else ",".intercalate (l.map toString)
+
+def fmtOut (init : Std.HashMap Nat (BitVec 8)) : Except String (State × Machine × Ctx) → String
+  | .error _ => "ERR"
+  | .ok (st, m, ctx) => s!"{fmtState st} | {fmtRegs m} | {memDiff init m} | {fmtStack ctx.callStack}"
+
+def handleL2 (req ans : String) : Verdict :=
+  match parseL2 req with
+  | none => bad
+  | some r =>
+    match parseLine r.line with
+    | none => { model := "ERR", specOk := ans == "ERR", spec := "ERR (line not in the interpreter language)", nontrivial := false }
+    | some i =>
+      let mo := exec r.cur r.m r.ctx i
+      let model := fmtOut r.initOv mo
+      -- the spec's verdict on the IMPLEMENTATION's answer: compare with the reference semantics
+      -- through the observation mask (flags the manual leaves undefined are not compared)
+      let so := Spec.execRef r.cur r.m r.ctx i
+      let (specOk, specStr) := match so with
+        | .error _ => (ans == "ERR", "ERR")
+        | .ok (st, sm, sctx, undef) =>
+          let exp := s!"{fmtState st} | {fmtRegs sm} | {memDiff r.initOv sm} | {fmtStack sctx.callStack}"
+          if undef == 0#16 then (ans == exp, exp)
+          else
+            -- mask the undefined flag bits on both sides
+            match splitBar ans with
+            | [st', regs', mem', stk'] =>
+              match (words regs').map nat! with
+              | fl' :: rest =>
+                let flm := (BitVec.ofNat 16 fl' &&& ~~~ undef) ||| (sm.flag &&& undef)
+                let regs'' := " ".intercalate (toString flm.toNat :: rest.map toString)
+                (s!"{st'} | {regs''} | {mem'} | {stk'}" == exp, exp ++ s!" (flags masked by {undef.toNat})")
+              | _ => (false, exp)
+            | _ => (false, exp)
+      let kf := Spec.knownFinding r.m r.ctx i
+      { model := model, specOk := specOk, spec := specStr, kf := kf,
+        nontrivial := match mo with | .ok (st, _, _) => st != State.NEXT || model != fmtOut r.initOv (.ok (State.NEXT, r.m, r.ctx)) | _ => false }
+
 end Driver
